@@ -383,7 +383,93 @@ fn one_case(g: &mut Gen, prop: &str, id: usize, len: usize) -> Vec<String> {
     c.out
 }
 
+/// a small concurrent history on three peers (seeded), then EVERY sequence of `len` directed pulls, then rounds
+/// until quiescence: all arrival orders of the same writes
+fn all_orders(a: &Args) {
+    let seed = a.u64_or("seed", 1);
+    let len = a.usize_or("len", 3);
+    let bases = a.usize_or("n", 4);
+    let mut w = BufWriter::new(std::fs::File::create(a.str_or("out", "cases.ops")).unwrap());
+    let pairs: Vec<(usize, usize)> = vec![(0, 1), (0, 2), (1, 0), (1, 2), (2, 0), (2, 1)];
+    let mut id = 0;
+    for b in 0..bases {
+        let mut g = Gen::new(seed.wrapping_mul(1000003) ^ (b as u64) ^ 0xA11_0DE5);
+        // base: two rows known to everybody, then concurrent writes on the three peers
+        let mut base: Vec<String> = vec![
+            "clock t=1000".into(),
+            "new p=0 row=1 room=1 ent=0 val=1 sig=2000001".into(),
+            "new p=0 row=2 room=1 ent=0 val=2 sig=2000002".into(),
+            "compute p=0".into(),
+            "pull dst=1 src=0 room=1".into(),
+            "pull dst=2 src=0 room=1".into(),
+        ];
+        let mut t = 2000u64;
+        let mut sig = 2000010u64;
+        let mut val = 10u64;
+        let mut deleted = false;
+        for p in 0..3usize {
+            if g.chance(1, 3) {
+                t += if g.chance(1, 4) { DAY } else { 1 + g.below(5) as u64 };
+            }
+            base.push(format!("clock t={}", t));
+            let row = 1 + g.below(2) as u64;
+            sig += 1;
+            val += 1;
+            match g.weighted(&[5, if deleted { 0 } else { 3 }, 2]) {
+                0 => base.push(format!("upd p={} row={} val={} sig={}", p, row, val, sig)),
+                1 => {
+                    t += 1;
+                    base.push(format!("clock t={}", t));
+                    base.push(format!("del p={} row={} dsig={}", p, row, sig));
+                    deleted = true;
+                }
+                _ => {
+                    t += 1;
+                    base.push(format!("clock t={}", t));
+                    base.push(format!("ref p={} row={} to={} sig={}", p, row, 3 - row, sig));
+                }
+            }
+            base.push(format!("compute p={}", p));
+            t += 1;
+        }
+        let mut idx = vec![0usize; len];
+        loop {
+            writeln!(w, "case id={} peers=3 rights=a,a,a", id).unwrap();
+            id += 1;
+            for l in &base {
+                writeln!(w, "{}", l).unwrap();
+            }
+            for i in 0..len {
+                let (d, s) = pairs[idx[i]];
+                writeln!(w, "pull dst={} src={} room=1", d, s).unwrap();
+            }
+            writeln!(w, "settle room=1 max=6").unwrap();
+            let mut i = len;
+            let mut done = false;
+            loop {
+                if i == 0 {
+                    done = true;
+                    break;
+                }
+                i -= 1;
+                idx[i] += 1;
+                if idx[i] < pairs.len() {
+                    break;
+                }
+                idx[i] = 0;
+            }
+            if done {
+                break;
+            }
+        }
+    }
+    w.flush().unwrap();
+}
+
 pub fn generate(a: &Args) {
+    if a.str_or("prop", "C09") == "orders" {
+        return all_orders(a);
+    }
     let prop = a.str_or("prop", "C09");
     let mut g = Gen::new(a.u64_or("seed", 1) ^ (prop.bytes().map(|b| b as u64).sum::<u64>() << 32));
     let n = a.usize_or("n", 50);
